@@ -88,3 +88,19 @@ fn usize_max(a: usize, b: usize) -> (r: usize) ensures r == (if a >= b { a } els
 proof fn axiom_str_len_bounded(s: &str)
     ensures s@.len() <= s.spec_bytes().len(), s.spec_bytes().len() <= isize::MAX,
 {}
+
+/// `s.as_bytes().contains(&b)`
+#[verifier::external_body]
+fn str_contains_byte(s: &str, b: u8) -> (r: bool)
+    ensures r == (exists|i: int| 0 <= i < s.spec_bytes().len() && #[trigger] s.spec_bytes()[i] == b),
+{ s.as_bytes().contains(&b) }
+/// `s.ends_with('\n')`
+#[verifier::external_body]
+fn str_ends_with_lf(s: &str) -> (r: bool)
+    ensures r == (s.spec_bytes().len() > 0 && s.spec_bytes().last() == 0x0a),
+{ s.ends_with('\n') }
+/// `String::len` (bytes)
+#[verifier::external_body]
+fn string_len(s: &String) -> (n: usize)
+    ensures n == encode_utf8(s@).len(), n <= isize::MAX,
+{ s.len() }
